@@ -3,6 +3,7 @@ import TucanProofs.Lemmas.OracleNonempty
 import TucanProofs.Examples
 import TucanProofs.Lemmas.FilesPerm
 import TucanProofs.Lemmas.MoreExamples
+import TucanProofs.Lemmas.IsoExample
 /-!
 # C01 — the TUCAN string is invariant under atom/bond reordering of the input
 
@@ -12,6 +13,14 @@ equal element, isotope mass and radical on corresponding atoms; bond records, ch
 any other attribute are unconstrained.  There is no connectivity or asymmetry hypothesis: symmetric
 molecules, several components and labels on part of an orbit are covered.
 `tucanOf O.order` is `serialize_molecule ∘ canonicalize_molecule` with igraph/bliss as the parameter `O`.
+
+Domain.  `g.Chem` (chemistry-level atoms) asks of every atom: the symbol is the table's symbol of its atomic
+number, the stored invariant code is `[z, mass or 0, radical or 0]` (what `graph_from_molecule` computes), and a
+stored mass or radical is not the number 0.  It is a real restriction — with a stored `MASS=0` on one description
+and no mass on the other the invariant codes coincide while the written attributes differ — and it holds for every
+graph the two molfile readers and the parser return (`C06_readsAs_graph_of`, `C11_accepted_string_denotes_molecule`).
+`SameIdent` compares `z`, `sym`, `mass`, `rad` and the stored `inv`; for `Chem` atoms the last two follow from the
+first three.  All conclusions are about runs that return: that they do return is C15.
 -/
 namespace Tucan
 
@@ -31,22 +40,20 @@ theorem C01_listing_independent (O : CanonOracle) (g g' : Graph) (s s' : Str)
     (h : tucanOf O.order g = .ok s) (h' : tucanOf O.order g' = .ok s') : s = s' :=
   tucan_invariant O iso hchem hw hs hw' hs' h h'
 
-/-- **C01 at the level of files.**  Two molfile texts — each V3000 (with any pairwise distinct atom indices in any
-order: `C06_v3000_file_any_indices`) or V2000 — are read as graphs of molecules `m` and `m'` (`IsGraphOf`).  If
-`m'` is `m` with its atoms listed in another order (`σ`, inverse `τ`), its bonds renumbered accordingly and
-listed in any order and orientation (`SameMolecule`), the two files get the same string — whatever their
-numbering, listing order and bond direction. -/
-theorem C01_files_same_string (O : CanonOracle) (σ τ : Nat → Nat) (m m' : Mol) (hm : m.Ok) (hm' : m'.Ok)
+/-- **C01 for graphs of molecules.**  `g`, `g'` are graphs of molecules `m` and `m'` (`IsGraphOf`: what either
+reader returns for a V3000 file — with any pairwise distinct atom indices in any order,
+`C06_v3000_file_any_indices` — or a V2000 file stating the molecule, `C06_readsAs_graph_of`).  If `m'` is `m` with
+its atoms listed in another order (`σ`, inverse `τ`), its bonds renumbered accordingly and listed in any order and
+orientation (`SameMolecule`), the two graphs get the same string.  No file occurs in this statement; the one with
+the texts inside is `C01_texts_same_string`. -/
+theorem C01_graphs_of_same_molecule (O : CanonOracle) (σ τ : Nat → Nat) (m m' : Mol) (hm : m.Ok) (hm' : m'.Ok)
     (same : SameMolecule σ τ m m') (c c' : List (Str × Str × Str))
     (hc : c.length = m.atoms.length) (hc' : c'.length = m'.atoms.length)
-    (text text' : Str) (g g' : Graph)
-    (hr : graphFromMolfileText text = .ok g) (hr' : graphFromMolfileText text' = .ok g')
-    (hg : IsGraphOf g m c) (hg' : IsGraphOf g' m' c') (s s' : Str)
-    (hs : tucanOf O.order g = .ok s) (hs' : tucanOf O.order g' = .ok s') : s = s' := by
-  have _ := hr; have _ := hr'
-  exact isGraphOf_same_string_perm O σ τ m m' hm hm' same c c' hc hc' g g' hg hg' s s' hs hs'
+    (g g' : Graph) (hg : IsGraphOf g m c) (hg' : IsGraphOf g' m' c') (s s' : Str)
+    (hs : tucanOf O.order g = .ok s) (hs' : tucanOf O.order g' = .ok s') : s = s' :=
+  isGraphOf_same_string_perm O σ τ m m' hm hm' same c c' hc hc' g g' hg hg' s s' hs hs'
 
-/-- … with the reading of the texts inside the statement: two texts that `ReadsAs` molecules `m` and `m'` (what
+/-- **C01 at the level of files**, with the reading of the texts inside the statement: two texts that `ReadsAs` molecules `m` and `m'` (what
 `C06_v3000_file_readsAs` / `C06_v2000_file_readsAs` establish for a V3000 or V2000 file stating the molecule, in any
 spelling, with any header and line endings), `m'` being `m` listed in another order: both texts are read, and
 whatever graphs and strings come out, the strings are equal. -/
@@ -68,10 +75,14 @@ theorem C01_texts_same_string (O : CanonOracle) (σ τ : Nat → Nat) (m m' : Mo
 /-- the contract the theorem quantifies over is satisfiable -/
 theorem C01_oracle_contract_inhabited : Nonempty CanonOracle := CanonOracle.nonempty
 
-/-- non-vacuity: a concrete molecule meets the structural hypotheses -/
-example : exGraph.WF ∧ exGraph.Simple := ⟨exGraph_wf, exGraph_simple⟩
+/-- non-vacuity of `C01_string_invariant`: two concrete descriptions of one molecule — atoms renamed by
+`a ↦ (a + 1) % 3` (not the identity), listed in another order, neighbours in another order, other bond types, the
+charge dropped — meet every hypothesis -/
+example : Iso SameIdent exRename exGraph exGraphR ∧ exRename ≠ id ∧ exGraph.Chem ∧
+    exGraph.WF ∧ exGraph.Simple ∧ exGraphR.WF ∧ exGraphR.Simple :=
+  ⟨exGraph_iso, exRename_ne_id, exGraph_chem, exGraph_wf, exGraph_simple, exGraphR_wf, exGraphR_simple⟩
 
-/-- non-vacuity of `C01_files_same_string`: a molecule and the same molecule listed in reverse order (bonds
+/-- non-vacuity of `C01_graphs_of_same_molecule` / `C01_texts_same_string`: a molecule and the same molecule listed in reverse order (bonds
 renumbered, one written the other way round, another bond type) -/
 example : MoreExamples.molRev.Ok ∧ SameMolecule MoreExamples.rev MoreExamples.rev FilesExample.mol MoreExamples.molRev :=
   ⟨MoreExamples.molRev_ok, MoreExamples.sameMolecule_rev⟩
